@@ -196,6 +196,10 @@ func c14Decode(c *engine.Ctx) {
 				if hashWrites[1].Common().Args[0] != ret {
 					continue
 				}
+				// Sum must append to nil: Sum(hash[:0]) would write the digest over the very bytes it is compared with
+				if len(sum.Common().Args) != 1 || !engine.IsNil(sum.Common().Args[0]) {
+					continue
+				}
 				revOK := false
 				for _, rc := range engine.CallsTo(fn, false, "crypto.reverseBytes") {
 					if rc.Common().Args[0] == ret && engine.Dominates(rc, hashWrites[1]) {
@@ -274,6 +278,14 @@ func c14Hashed(c *engine.Ctx) {
 				return false
 			})
 			okFrom := strings.Contains(engine.Describe(ret), "dataWithHash[20:]")
+			// the guess must range over every possible data length 0..235 (necessary: the interval of the
+			// candidate length reaches both ends)
+			if sl, isSl := ret.(*ssa.Slice); isSl && sl.High != nil {
+				li := engine.NewIntervals().At(sl.High, sl)
+				c.Check(li.Lo <= 0 && li.Hi >= 235, "C14.R3", "RSADecryptHashed/guesses-every-length", sl.Pos(), "the candidate data lengths tried are within %s; every length 0..235 must be tried (data of exactly 235 bytes fills the block)", li)
+			} else {
+				c.Undecided("C14.R3", "RSADecryptHashed/guesses-every-length", r.Pos(), "returned data is not a prefix slice of the decrypted block")
+			}
 			c.Check(okDec && okEq && okFrom, "C14.R3", "RSADecryptHashed/hash-check", r.Pos(), "data may be returned only when rsaDecrypt succeeded and SHA1(data) equals the leading 20 bytes (rsa-ok=%v hash=%v data-from-block=%v)", okDec, okEq, okFrom)
 		}
 		c.Floor("C14.R3b", 1, n)
